@@ -101,6 +101,20 @@ Theorem C20_dup_iff_equal_content : forall filehash (hs : nat) es,
   (dup_related (dup_loop filehash es []) a b <-> data (snd a) = data (snd b)).
 Proof. exact dup_iff_equal_content. Qed.
 
+(* the comparison is on the WHOLE file-level digest (HASH_MAX = 16 bytes in dup.c), whatever the size of the block hashes
+   (BLOCK_HASH_SIZE, option `hashsize`): two eligible files whose digests agree on the first k bytes only are not a pair *)
+Theorem C20_dup_full_digest : forall filehash l1 a l2 b l3 ha hb (k : nat),
+  eligible filehash a ha -> eligible filehash b hb -> firstn k ha = firstn k hb -> ha <> hb ->
+  ~ dup_related (dup_loop filehash (l1 ++ a :: l2 ++ b :: l3) []) a b.
+Proof. exact dup_full_digest. Qed.
+Example C20_dup_full_digest_nv :   (* block hashes of 2 bytes; the digests [7;7;1] and [7;7;2] agree on 2 bytes: no report *)
+  let fh := fun buf : bstr => match buf with [1; 1] => [7; 7; 1] | [2; 2] => [7; 7; 2] | _ => buf end in
+  let fa := mkfile [97] 10 0 0 1 [(1, [1; 1])] in let fb := mkfile [98] 10 0 0 2 [(1, [2; 2])] in
+  let fc := mkfile [99] 10 0 0 3 [(1, [1; 1])] in
+  eligible fh ([49], fa) [7; 7; 1] /\ eligible fh ([49], fb) [7; 7; 2] /\
+  dup_report fh [mkdisk [49] [fa; fb; fc] []] = [(([49], fc), ([49], fa))].
+Proof. cbv zeta. repeat split; try discriminate; reflexivity. Qed.
+
 (* empty files and files with a block that has no updated hash (CHG, or any state but BLK/REP) are never reported *)
 Theorem C20_dup_unhashed_never : forall filehash es e r,
   (f_size (snd e) = 0 \/ hash_buf (f_blocks (snd e)) = None) ->
@@ -211,6 +225,7 @@ Print Assumptions C20_list_log_parse.
 Print Assumptions C20_dup_iff_same_hash.
 Print Assumptions C20_dup_iff_equal_content.
 Print Assumptions C20_dup_unhashed_never.
+Print Assumptions C20_dup_full_digest.
 Print Assumptions C20_status_counters.
 Print Assumptions C20_status_unscrubbed_ignores_bad.
 Print Assumptions C20_status_step_bad_justsynced.
